@@ -176,6 +176,39 @@ def r01_3(run, model, trs, only_fns=None):
     run.floor("pass arms with sub-terms examined", n, 150 if only_fns is None else 10)
 
 
+def _alternatives(arm_body, expr, of_expr, inv):
+    """for a field filled from a variable that a tuple-let binds from a match / if whose branches are tuples: the input fields each
+    branch's component derives from (one set per branch)"""
+    e = expr
+    while e["k"] == "Call" and len(e["args"]) == 1 and S.callee_name(e) in ("new", "Some"):
+        e = e["args"][0]
+    if e["k"] != "Path" or len(e["segs"]) != 1:
+        return []
+    name = e["segs"][0]
+    out = []
+    for l in S.find(arm_body, "Local"):
+        if l["pat"]["k"] != "PTuple" or l.get("init") is None:
+            continue
+        names = [x["name"] if x["k"] == "PIdent" else None for x in l["pat"]["elems"]]
+        if name not in names:
+            continue
+        idx = names.index(name)
+        init = l["init"]
+        branches = []
+        if init["k"] == "Match":
+            branches = [a["body"] for a in init["arms"]]
+        elif init["k"] == "If" and init.get("else") is not None:
+            branches = [init["then"], init["else"]]
+        # the names the tuple-let binds may shadow earlier bindings of the same names: look at the branches with the tuple-let left out
+        _org, of_before = P.origins(arm_body, list(inv), skip=(l,))
+        for b in branches:
+            while b["k"] == "Block" and b["stmts"] and b["stmts"][-1]["k"] == "ExprStmt":
+                b = b["stmts"][-1]["expr"]
+            if b["k"] == "Tuple" and len(b["elems"]) > idx:
+                out.append({inv[x] for x in of_before(b["elems"][idx]) if x in inv})
+    return out
+
+
 def r01_4(run, model, trs):
     run.rule("R01.4", "field homomorphism: where an arm rebuilds the same-named variant, the value stored in child field g derives from "
                       "the input's field g (def-use through lets, continuation/iterator closure parameters), not from a sibling field")
@@ -209,6 +242,12 @@ def r01_4(run, model, trs):
                         own = fl["name"] in o
                         others = sorted(o - {fl["name"]})
                         ok = own or not others
+                        # a value chosen by case analysis (`let (op, l, r) = match op { A => (.., r, l), other => (.., l, r) }`): every
+                        # alternative has to derive from the field's own input, not only their union
+                        if ok and own:
+                            for alt_o in _alternatives(arm["body"], fl["expr"], of_expr, inv):
+                                if fl["name"] not in alt_o and alt_o:
+                                    ok, others = False, sorted(alt_o)
                         run.ob("R01.4", f"{t.fn.name}|{vname}.{fl['name']}", ok, site(t.fn.file, fl["sp"]),
                                f"output {vname}.{fl['name']} derives from input field(s) {sorted(o) or 'none (constant/new)'}",
                                witness=f"{vname}: `{fl['name']}` is filled from `{others[0] if others else '?'}` - branches/operands/arguments swapped")
@@ -503,6 +542,39 @@ def r01_10(run, model):
     run.floor("continuations handed on by the sibling lowerings", n, 12)
 
 
+def r01_11(run, model):
+    run.rule("R01.11", "text the program prints is never read as a format: wherever the runtime (or the back end) builds a Go call of a "
+                       "formatting function (`fmt.Printf`, `fmt.Sprintf`, `fmt.Fprintf`, `fmt.Errorf` ..), its first argument is a string "
+                       "literal the compiler wrote, not a value of the program")
+    n = 0
+    for rel in ("crates/compiler/src/go/runtime.rs", "crates/compiler/src/go/compile.rs"):
+        for f in model.fns(rel):
+            if f.body is None:
+                continue
+            for st in S.find(f.body, "Struct"):
+                if st["segs"][-1] != "Call":
+                    continue
+                fn_f = next((fl for fl in st["fields"] if fl["name"] == "func"), None)
+                args_f = next((fl for fl in st["fields"] if fl["name"] == "args"), None)
+                if fn_f is None or args_f is None:
+                    continue
+                lits = [x["value"] for x in S.walk(fn_f["expr"]) if x["k"] == "Lit" and x.get("lit") == "Str"]
+                fmtf = [v for v in lits if re.fullmatch(r"fmt\.(Sp|P|Fp|Err|App)\w*f", v) or v in ("fmt.Errorf", "log.Printf", "log.Fatalf")]
+                if not fmtf:
+                    continue
+                n += 1
+                first = None
+                a = args_f["expr"]
+                if a["k"] == "Macro" and a.get("args"):
+                    first = a["args"][0]
+                ok = first is not None and first["k"] == "Struct" and first["segs"][-1] == "String" and any(
+                    x["k"] == "Lit" and x.get("lit") == "Str" for x in S.walk(first))
+                run.ob("R01.11", f"{f.name}|{fmtf[0]} is given a format the compiler wrote", ok, site(rel, st["sp"]),
+                       f"first argument: `{S.norm_ws(run.facts.text(rel, first['sp']))[:60] if first is not None else '?'}`",
+                       witness="string_print(\"25% done\") through fmt.Printf(s) prints `25%!d(MISSING)one`")
+    run.floor("formatting calls built by the runtime", n, 2)
+
+
 def run(run, model):
     run.try_rule(r01_6, model)
     trs = P.discover(model, include_pprint=True)
@@ -512,6 +584,7 @@ def run(run, model):
     run.try_rule(r01_4, model, trs)
     run.try_rule(r01_9, model)
     run.try_rule(r01_10, model)
+    run.try_rule(r01_11, model)
     # which binder a name denotes is part of what the program means (shared with C05 R05.2)
     from rules import c05 as _c05
     run.try_rule(_c05.r05_2, model)
